@@ -702,10 +702,12 @@ func checkC19(c *Ctx) {
 		file := filepath.Join(docs, sanitize(cs.Name)+"."+enc)
 		must(os.WriteFile(file, data, 0o644))
 		defer os.Remove(file)
-		schemaArg := pickStr(r, "builtin", "builtin", "none", filepath.Join(extDir, "schema.json"))
+		// ("" = the option given with an empty name, "<default>" = no option at all: the
+		// tool announces the builtin schema for both)
+		schemaArg := pickStr(r, "builtin", "builtin", "none", filepath.Join(extDir, "schema.json"), "", "<default>")
 		var s *schema.Schema
 		switch schemaArg {
-		case "builtin":
+		case "builtin", "", "<default>":
 			s = builtin
 		case "none":
 			s = none
@@ -714,6 +716,15 @@ func checkC19(c *Ctx) {
 		}
 		useStdin := chance(r, 35)
 		args := []string{"--schema", schemaArg}
+		switch {
+		case schemaArg == "<default>":
+			args = nil
+		case schemaArg == "" && chance(r, 50):
+			args = []string{"--schema="}
+		case chance(r, 25):
+			args = []string{"-schema=" + schemaArg}
+		}
+		c.Count("validate_schema_choice:"+filepath.Base(schemaArg), 1)
 		var stdin []byte
 		var want error
 		if useStdin {
